@@ -462,11 +462,11 @@ def check(ctx):
         for lab, fa in info["records"]:
             for f_, vals in fa.items():
                 for v in vals:
-                    for gname, sub in _re12.findall(r"global:([A-Za-z_]\w*)(\[)?", v):
+                    for gname, sub in _re12.findall(r"global:([A-Za-z_]\w*)(\[|\.get\()?", v):
                         if gname not in mutable_globals:
                             continue
                         if sub and not mutable_globals[gname][1]:
-                            continue        # an ENTRY of a table of plain constants (a precedence number, a type name): immutable, sharing it is harmless
+                            continue        # an ENTRY of a table of plain constants (a precedence number, a type name; `T[k]` or `T.get(k, d)`): immutable, sharing it is harmless
                         n_g += 1
                         ctx.oblige("R-C12.3", f"{meth}: {lab}.{f_} <- {v[:60]}", False)
                         ctx.violation("R-C12.3", f"shared-global-in-tree:{gname}", f"{meth} builds the module-level mutable object `{gname}` (or an entry of it) into {lab}.{f_} (`{v[:80]}`): the object is created once, at import time, so the "
